@@ -190,9 +190,9 @@ Section Created3.
     (* assemble *)
     pose proof (p1_load_ok md5 ix (io_init fs2 []) _ sa v (erase keep datas) sb
                   slots (if existsb idb kv then size else 0%nat) sd He ER EV) as PL.
-    rewrite F2, F3, F1, F5 in PL.
+    unfold nsaved in PL. rewrite F2, F3, F1 in PL.
     assert (Efs : filter saved entries = entries) by apply filter_saved_mk.
-    rewrite Efs in PL.
+    rewrite Efs, Hel in PL.
     specialize (PL eq_refl EL Hds).
     assert (EC : (256 <=? N.of_nat (length datas)) = false) by (apply N.leb_gt; lia).
     specialize (PL EC ELV1).
@@ -600,7 +600,7 @@ Section TwoRuns.
       destruct (read_res (io_fs st) (volume_path ix (N.of_nat (S i)))) as [b'|x'|q']; [| |reflexivity].
       + destruct (read_volume md5 b') as [v|x''|q'']; [|apply IH'|reflexivity].
         repeat lazymatch goal with
-               | |- fst (if ?c then _ else _) = _ => destruct c; [reflexivity|]
+               | |- fst (if ?c then _ else _) = _ => destruct c; [first [reflexivity | apply IH']|]
                end.
         apply IH'.
       + destruct x'; try reflexivity. apply IH'.
@@ -634,7 +634,7 @@ Section TwoRuns.
       try (injection HD as ->; reflexivity).
     injection HD as ->.
     destruct ds as [|d0 ds]; [reflexivity|].
-    destruct (256 <=? v_count v); [reflexivity|]. cbv zeta.
+    fold es. destruct (256 <=? N.of_nat (length es)); [reflexivity|]. cbv zeta.
     destruct P1 as (Pf & Ps & _). destruct P1' as (Pf' & Ps' & _).
     rewrite Hs1 in Ps. rewrite Hs1' in Ps'. rewrite Hf1 in Pf. rewrite Hf1' in Pf'.
     match goal with |- context [load_vols md5 ix ?a ?i ?n ?s ?acc s2] =>
